@@ -57,7 +57,7 @@ type Case struct {
 	Order2   []int    `json:"order2"` // permutation of node indices: insertion order of the second hash
 	Remove   int      `json:"remove"` // node removed for the sweep over all keys
 	Extra    Node     `json:"extra"`  // new node added for the sweep over all keys
-	LongKeys []string `json:"long"`   // even-length hex strings, 2..64 digits, any case
+	LongKeys []string `json:"long"`   // even-length hex strings, 2..1024 digits (1..512 key bytes), any case
 	Trunc    []int    `json:"trunc"`  // values of n for GetOrderedNodes(key, n), >= 0
 	Stride   int      `json:"stride"` // the key subset takes every 64th shard starting here (0..63)
 }
@@ -87,6 +87,61 @@ func genFamilyLabel(t *rapid.T) string {
 	return base + rapid.SampledFrom([]string{"", "0", "80", "1", "00"}).Draw(t, "ext")
 }
 
+// genLongFamily returns a generator of long labels (up to ~230 bytes) that share one drawn prefix and
+// differ only in a short tail: fully qualified host:port names of one cluster differing in the host
+// number or the port, volume paths below one deep mount point. Nothing in lib/hrw bounds the label
+// length, and the statement quantifies over all node sets.
+func genLongFamily(t *rapid.T) *rapid.Generator[string] {
+	head := rapid.SampledFrom([]string{"kraken-origin-", "/var/lib/kraken/volumes/", "agent-"}).Draw(t, "head")
+	seg := rapid.SampledFrom([]string{"prod.dca1.example.internal.", "rack12/shelf03/", "x"}).Draw(t, "seg")
+	padLen := rapid.SampledFrom([]int{0, 16, 30, 40, 62, 64, 100, 110, 126, 128, 160, 200}).Draw(t, "padLen")
+	if rapid.Bool().Draw(t, "anyPad") {
+		padLen = rapid.IntRange(0, 200).Draw(t, "padLenAny")
+	}
+	prefix := head + strings.Repeat(seg, padLen/len(seg)+1)[:padLen]
+	return rapid.Custom(func(t *rapid.T) string {
+		switch rapid.IntRange(0, 2).Draw(t, "tail") {
+		case 0:
+			return fmt.Sprintf("%s%02d:15002", prefix, rapid.IntRange(0, 40).Draw(t, "host"))
+		case 1:
+			return fmt.Sprintf("%shost:%d", prefix, rapid.IntRange(15000, 15040).Draw(t, "port"))
+		default:
+			return prefix + rapid.StringMatching(`[a-z0-9]{1,6}`).Draw(t, "sfx")
+		}
+	})
+}
+
+// genKey draws an even-length hex key of 1..512 key bytes: half of them in the digest range (1..32
+// bytes), the rest longer, with the lengths around powers of two and around 128 bytes over-represented.
+func genKey(t *rapid.T) string {
+	var nb int
+	switch rapid.IntRange(0, 7).Draw(t, "keyForm") {
+	case 0, 1, 2, 3:
+		nb = rapid.IntRange(1, 32).Draw(t, "keyBytes")
+	case 4:
+		nb = rapid.IntRange(33, 128).Draw(t, "keyBytesMid")
+	case 5:
+		nb = rapid.SampledFrom([]int{33, 48, 63, 64, 65, 96, 100, 120, 127, 128, 129, 130, 160, 192, 255, 256, 257, 384, 512}).Draw(t, "keyBytesEdge")
+	default:
+		nb = rapid.IntRange(129, 512).Draw(t, "keyBytesLong")
+	}
+	raw := rapid.SliceOfN(rapid.Byte(), nb, nb).Draw(t, "keyRaw")
+	k := []byte(hex.EncodeToString(raw))
+	switch rapid.IntRange(0, 2).Draw(t, "keyCase") {
+	case 0: // lower case
+	case 1:
+		k = []byte(strings.ToUpper(string(k)))
+	default: // mixed: the bits of a drawn word, cyclically, choose the case of each digit
+		m := rapid.Uint64().Draw(t, "caseBits")
+		for i := range k {
+			if m>>(uint(i)%64)&1 == 1 && k[i] >= 'a' {
+				k[i] -= 'a' - 'A'
+			}
+		}
+	}
+	return string(k)
+}
+
 func genWeight(t *rapid.T) int {
 	switch rapid.IntRange(0, 3).Draw(t, "wform") {
 	case 0:
@@ -108,8 +163,12 @@ func gen(t *rapid.T) Case {
 		n = 10 // big.Float scoring is an order of magnitude slower; keeps the per-case cost bounded
 	}
 	labelGen := rapid.Custom(genLabel)
-	if rapid.IntRange(0, 2).Draw(t, "family") == 0 {
+	switch rapid.IntRange(0, 5).Draw(t, "family") {
+	case 0, 1:
 		labelGen = rapid.OneOf(rapid.Custom(genFamilyLabel), rapid.Custom(genFamilyLabel), rapid.Custom(genLabel))
+	case 2, 3:
+		long := genLongFamily(t)
+		labelGen = rapid.OneOf(long, long, long, rapid.Custom(genLabel))
 	}
 	labels := rapid.SliceOfNDistinct(labelGen, n+1, n+1, rapid.ID[string]).Draw(t, "labels")
 	equalWeights := rapid.IntRange(0, 3).Draw(t, "equalWeights") == 0
@@ -139,10 +198,7 @@ func gen(t *rapid.T) Case {
 		}
 	}
 	c.Remove = rapid.IntRange(0, n-1).Draw(t, "remove")
-	c.LongKeys = rapid.SliceOfN(rapid.Custom(func(t *rapid.T) string {
-		bytes := rapid.IntRange(1, 32).Draw(t, "keyBytes")
-		return rapid.StringMatching(fmt.Sprintf(`[0-9a-fA-F]{%d}`, 2*bytes)).Draw(t, "key")
-	}), 8, 48).Draw(t, "long")
+	c.LongKeys = rapid.SliceOfN(rapid.Custom(genKey), 8, 48).Draw(t, "long")
 	c.Trunc = rapid.SliceOfN(rapid.IntRange(0, n+2), 1, 4).Draw(t, "trunc")
 	c.Stride = rapid.IntRange(0, 63).Draw(t, "stride")
 	return c
@@ -580,6 +636,33 @@ func run(c Case) pbt.Verdict {
 	if prefixPair {
 		cls = append(cls, "labels-with-prefix-pair")
 	}
+	maxLabel, maxKey, maxSum := 0, 0, 0
+	for _, nd := range c.Nodes {
+		if len(nd.Label) > maxLabel {
+			maxLabel = len(nd.Label)
+		}
+	}
+	for _, k := range c.LongKeys {
+		if len(k)/2 > maxKey {
+			maxKey = len(k) / 2
+		}
+	}
+	maxSum = maxKey + maxLabel
+	switch {
+	case maxLabel > 128:
+		cls = append(cls, "label>128B")
+	case maxLabel > 40:
+		cls = append(cls, "label:41-128B")
+	}
+	switch {
+	case maxKey > 128:
+		cls = append(cls, "key>128B")
+	case maxKey > 32:
+		cls = append(cls, "key:33-128B")
+	}
+	if maxSum > 256 {
+		cls = append(cls, "key+label>256B")
+	}
 	if eq {
 		cls = append(cls, "equal-weights")
 	} else {
@@ -675,7 +758,7 @@ func TestProp(t *testing.T) {
 	pbt.Main(t, pbt.Spec{
 		ID: "C22",
 		Rule: "part order: generated node set (1-16 distinct labels, weights 1-1000 or all equal), hash/score pair in {murmur3,sha256}x{UInt64ToFloat64,BigIntToFloat64} (murmur3+UInt64 half of the cases), " +
-			"a second insertion order, a node to remove, a new node to add, 8-48 long hex keys, truncation sizes; for ALL 65536 four-hex-digit keys + the 256 two-digit upper-case keys + the long keys: " +
+			"a second insertion order, a node to remove, a new node to add, 8-48 long hex keys (1-512 key bytes, half of them beyond 32 bytes, lengths around 64/128/256 over-represented; one case in three has labels of up to ~230 bytes sharing a long prefix), truncation sizes; for ALL 65536 four-hex-digit keys + the 256 two-digit upper-case keys + the long keys: " +
 			"GetOrderedNodes equals the node set ordered by the harness's own reference score (keys where two reference scores are within 1e-12 relative, 1e-9 for BigIntToFloat64, are skipped and counted), exported Score values strictly descend and match the reference, " +
 			"a second hash holding the nodes in the other insertion order plus the new node returns the same list with only the new node inserted, RemoveNode of the drawn node only deletes it; on a subset (every 64th shard, the two-digit keys, the long keys) " +
 			"truncation to n and EVERY single-node RemoveNode and re-AddNode are checked; evaluations = ordered lists judged; non-trivial = at least 2 nodes; distinct = distinct (hash pair, node set). " +
